@@ -476,7 +476,7 @@ def unknown_is_deferred(F, rep):
                         refusing = [g_ for a2 in m["arms"] for g_ in nodes(a2["body"], "If")
                                     if "inside_pure" in pp(g_["c"]) and "Purity::Pure" in pp(g_["c"]) and tc.is_err_value(g_["t"])]
                         settling = [g_ for a2 in m["arms"] for g_ in nodes(a2["body"], "If")
-                                    if "inside_pure" in pp(g_["c"]) and "Purity::Undefined" in pp(g_["c"]) and not tc.is_err_value(g_["t"])
+                                    if "inside_pure" in pp(g_["c"]) and "Purity::Undefined" in tc.cond_text(fn, g_["c"]) and not tc.is_err_value(g_["t"])
                                     and any(callee(u_) == "sylt_compiler::typechecker::TypeChecker::unify" for u_ in nodes(g_["t"], "MethodCall"))]
                         behind = {id(x_) for g_ in settling for x_ in nodes(g_.get("e") or {})}
                         open_refused = [g_ for g_ in refusing if re.search(r"!\s*match\b[^{]*\{\s*Purity::Pure\s*=>\s*true", pp(g_["c"]))
